@@ -42,15 +42,15 @@ RECURSIVE ToBitsV(_, _)
 ToBitsV(t, x) ==
     CASE IsLeaf(t) -> FromSM(x, LeafBits(t))
       [] t.k = "alias" -> ToBitsV(t.to, x)
-      [] t.k = "array" -> [e \in 1..t.cap |-> ToBitsV(t.elem, x[e])]
-      [] t.k = "msg" -> [f \in 1..Len(t.fields) |-> ToBitsV(t.fields[f].t, x[f])]
+      [] t.k = "array" -> Eager([e \in 1..t.cap |-> ToBitsV(t.elem, x[e])])
+      [] t.k = "msg" -> Eager([f \in 1..Len(t.fields) |-> ToBitsV(t.fields[f].t, x[f])])
 
 RECURSIVE ToSMV(_, _)
 ToSMV(t, v) ==
     CASE IsLeaf(t) -> ToSM(v, t.k = "int")
       [] t.k = "alias" -> ToSMV(t.to, v)
-      [] t.k = "array" -> [e \in 1..t.cap |-> ToSMV(t.elem, v[e])]
-      [] t.k = "msg" -> [f \in 1..Len(t.fields) |-> ToSMV(t.fields[f].t, v[f])]
+      [] t.k = "array" -> Eager([e \in 1..t.cap |-> ToSMV(t.elem, v[e])])
+      [] t.k = "msg" -> Eager([f \in 1..Len(t.fields) |-> ToSMV(t.fields[f].t, v[f])])
 
 RECURSIVE AllInRange(_, _)
 AllInRange(t, x) ==
@@ -66,23 +66,23 @@ RECURSIVE StorageV(_, _)
 StorageV(t, v) ==
     CASE IsLeaf(t) -> LeafStorage(t, v)
       [] t.k = "alias" -> StorageV(t.to, v)
-      [] t.k = "array" -> [e \in 1..t.cap |-> StorageV(t.elem, v[e])]
-      [] t.k = "msg" -> [f \in 1..Len(t.fields) |-> StorageV(t.fields[f].t, v[f])]
+      [] t.k = "array" -> Eager([e \in 1..t.cap |-> StorageV(t.elem, v[e])])
+      [] t.k = "msg" -> Eager([f \in 1..Len(t.fields) |-> StorageV(t.fields[f].t, v[f])])
 
 RECURSIVE TruncV(_, _)
 TruncV(t, img) ==
     CASE IsLeaf(t) -> Trunc(t, img)
       [] t.k = "alias" -> TruncV(t.to, img)
-      [] t.k = "array" -> [e \in 1..t.cap |-> TruncV(t.elem, img[e])]
-      [] t.k = "msg" -> [f \in 1..Len(t.fields) |-> TruncV(t.fields[f].t, img[f])]
+      [] t.k = "array" -> Eager([e \in 1..t.cap |-> TruncV(t.elem, img[e])])
+      [] t.k = "msg" -> Eager([f \in 1..Len(t.fields) |-> TruncV(t.fields[f].t, img[f])])
 
 (* storage widths per leaf as the spec prescribes *)
 RECURSIVE StorageW(_)
 StorageW(t) ==
     CASE IsLeaf(t) -> IF t.k = "bool" THEN 8 ELSE StorageBits(LeafBits(t))
       [] t.k = "alias" -> StorageW(t.to)
-      [] t.k = "array" -> [e \in 1..t.cap |-> StorageW(t.elem)]
-      [] t.k = "msg" -> [f \in 1..Len(t.fields) |-> StorageW(t.fields[f].t)]
+      [] t.k = "array" -> Eager([e \in 1..t.cap |-> StorageW(t.elem)])
+      [] t.k = "msg" -> Eager([f \in 1..Len(t.fields) |-> StorageW(t.fields[f].t)])
 
 (* ---- event guards: each returns "" when the event is explained by the   *)
 (* spec, otherwise the name of the failing clause ----                     *)
